@@ -330,3 +330,116 @@ Proof.
   intros HAB Hab. apply midpoint_exists_unique; [intro z; apply continuous_const | exact Hab |].
   intros z _. apply Rinv_0_lt_compat. lra.
 Qed.
+
+(* ---------------------------------------------------------------- the triangle density on R *)
+(* min(u, v) and max(0, t) through the absolute value (compositions of continuous functions) *)
+Definition minR (u v : R) : R := (u + v - Rabs (u - v)) / 2.
+Definition posR (t : R) : R := (t + Rabs t) / 2.
+(* tent over [A,B] with peak 2/(B-A) at the mode C: the density of the triangle distribution, 0 outside [A,B] *)
+Definition pdfT (A C B x : R) : R :=
+  posR (minR (2 * (x - A) / ((B - A) * (C - A))) (2 * (B - x) / ((B - A) * (B - C)))).
+
+Lemma posR_nonneg t : 0 <= posR t.
+Proof. unfold posR, Rabs. destruct (Rcase_abs t); lra. Qed.
+Lemma posR_pos t : 0 < t -> posR t = t.
+Proof. intro H. unfold posR. rewrite Rabs_pos_eq by lra. lra. Qed.
+Lemma minR_pos u v : 0 < u -> 0 < v -> 0 < minR u v.
+Proof. intros Hu Hv. unfold minR, Rabs. destruct (Rcase_abs (u - v)); lra. Qed.
+
+Lemma pdfT_continuous A C B x : continuous (pdfT A C B) x.
+Proof.
+  unfold pdfT, posR, minR.
+  set (u := fun t : R => 2 * (t - A) / ((B - A) * (C - A))). set (v := fun t : R => 2 * (B - t) / ((B - A) * (B - C))).
+  assert (Cu : continuous u x).
+  { unfold u, Rdiv. apply (continuous_scal_l (fun t : R => 2 * (t - A)) (/ ((B - A) * (C - A)))).
+    apply (continuous_scal_r 2 (fun t : R => t - A)). apply (continuous_minus (fun t : R => t) (fun _ => A)); [apply continuous_id | apply continuous_const]. }
+  assert (Cv : continuous v x).
+  { unfold v, Rdiv. apply (continuous_scal_l (fun t : R => 2 * (B - t)) (/ ((B - A) * (B - C)))).
+    apply (continuous_scal_r 2 (fun t : R => B - t)). apply (continuous_minus (fun _ => B) (fun t : R => t)); [apply continuous_const | apply continuous_id]. }
+  set (m := fun t : R => (u t + v t - Rabs (u t - v t)) / 2).
+  assert (Cm : continuous m x).
+  { unfold m, Rdiv. apply (continuous_scal_l (fun t : R => u t + v t - Rabs (u t - v t)) (/ 2)).
+    apply (continuous_minus (fun t => u t + v t) (fun t => Rabs (u t - v t))).
+    - apply (continuous_plus u v); assumption.
+    - apply continuous_Rabs_comp. apply (continuous_minus u v); assumption. }
+  change (continuous (fun t => (m t + Rabs (m t)) / 2) x). unfold Rdiv.
+  apply (continuous_scal_l (fun t : R => m t + Rabs (m t)) (/ 2)).
+  apply (continuous_plus m (fun t => Rabs (m t))); [exact Cm | apply continuous_Rabs_comp; exact Cm].
+Qed.
+
+Lemma pdfT_nonneg A C B x : 0 <= pdfT A C B x.
+Proof. apply posR_nonneg. Qed.
+
+Lemma pdfT_pos A C B x : A < C -> C < B -> A < x < B -> 0 < pdfT A C B x.
+Proof.
+  intros HAC HCB Hx. unfold pdfT.
+  assert (P : 0 < minR (2 * (x - A) / ((B - A) * (C - A))) (2 * (B - x) / ((B - A) * (B - C)))).
+  { apply minR_pos; apply Rdiv_lt_0_compat; try lra; apply Rmult_lt_0_compat; lra. }
+  rewrite posR_pos by exact P. exact P.
+Qed.
+
+(* the triangle distribution as an instance of the generic theorems *)
+Theorem triangle_moment_hypotheses A C B x1 x2 :
+  x1 <= x2 ->
+  0 <= mom0 (pdfT A C B) x1 x2 /\ x1 * mom0 (pdfT A C B) x1 x2 <= mom1 (pdfT A C B) x1 x2
+  /\ mom1 (pdfT A C B) x1 x2 <= x2 * mom0 (pdfT A C B) x1 x2.
+Proof.
+  intro H. apply moment_hypotheses; [exact H | intros z _; apply pdfT_continuous | intros z _; apply pdfT_nonneg].
+Qed.
+
+Theorem triangle_weights_probability A C B x tlo thi :
+  incR x -> x <> [] -> 0 <= tlo -> 0 <= thi ->
+  (forall w, In w (weightsR tlo thi (density_ivals (pdfT A C B) x)) -> 0 <= w) /\
+  sumR (weightsR tlo thi (density_ivals (pdfT A C B) x)) = tlo + RInt (pdfT A C B) (firstR x) (lastR x) + thi.
+Proof.
+  intros Hi Hne Hlo Hhi.
+  set (lo := fold_right Rmin (firstR x) x). set (hi := fold_right Rmax (firstR x) x).
+  apply (density_weights_probability (pdfT A C B) lo hi); try assumption.
+  - intros z _. apply pdfT_continuous.
+  - intros z _. apply pdfT_nonneg.
+  - apply Forall_forall. intros t Ht. unfold lo, hi. clear -Ht. generalize (firstR x) as d. intro d.
+    induction x as [|y r IH]; [destruct Ht|]. simpl. destruct Ht as [<-|Ht].
+    + split; [apply Rmin_l | apply Rmax_l].
+    + destruct (IH Ht) as [L U]. split; [eapply Rle_trans; [apply Rmin_r | exact L] | eapply Rle_trans; [exact U | apply Rmax_r]].
+Qed.
+
+Theorem triangle_midpoint A C B a b :
+  A < C -> C < B -> A <= a -> a < b -> b <= B ->
+  exists m, (a < m < b /\ RInt (pdfT A C B) a m = RInt (pdfT A C B) m b) /\
+            forall m', a < m' < b /\ RInt (pdfT A C B) a m' = RInt (pdfT A C B) m' b -> m' = m.
+Proof.
+  intros HAC HCB Ha Hab Hb. apply midpoint_exists_unique; [intro z; apply pdfT_continuous | exact Hab |].
+  intros z Hz. apply pdfT_pos; try assumption. lra.
+Qed.
+
+(* ---------------------------------------------------------------- total mass of the uniform distribution, tied to the Qc model *)
+(* the closed-form zeroth moment of Model/UQ.v IS the integral of the density 1/(B-A) *)
+Theorem uniform_moment0_is_integral (A B x1 x2 : Qc) :
+  A <> B -> QcR (uni_m0 A B x1 x2) = RInt (fun _ => / (QcR B - QcR A)) (QcR x1) (QcR x2).
+Proof.
+  intro HAB. rewrite RInt_const. unfold uni_m0, scal; simpl; unfold mult; simpl.
+  rewrite QcR_div, !QcR_minus; [field|].
+  - intro E. apply HAB. apply Qc_is_canon. apply Qreals.eqR_Qeq. unfold QcR in E. lra.
+  - intro E. apply HAB. apply (f_equal (fun t => (t + A)%Qc)) in E. ring_simplify in E. symmetry. exact E.
+Qed.
+
+Theorem uniform_total_mass (A B : R) : A < B -> RInt (fun _ => / (B - A)) A B = 1.
+Proof. intro H. rewrite RInt_const. unfold scal; simpl; unfold mult; simpl. field. lra. Qed.
+
+(* on a grid A = x_0 < ... < x_n = B the weights of the uniform density sum to exactly 1 (tails 0) *)
+Theorem uniform_weights_sum_one (A B : R) x :
+  A < B -> incR x -> x <> [] -> firstR x = A -> lastR x = B ->
+  (forall w, In w (weightsR 0 0 (density_ivals (fun _ => / (B - A)) x)) -> 0 <= w) /\
+  sumR (weightsR 0 0 (density_ivals (fun _ => / (B - A)) x)) = 1.
+Proof.
+  intros HAB Hi Hne Hf Hl.
+  set (lo := fold_right Rmin (firstR x) x). set (hi := fold_right Rmax (firstR x) x).
+  destruct (density_weights_probability (fun _ => / (B - A)) lo hi) with (x := x) (tlo := 0) (thi := 0) as [N S0]; try assumption; try lra.
+  - intros z _. apply continuous_const.
+  - intros z _. apply Rlt_le, Rinv_0_lt_compat. lra.
+  - apply Forall_forall. intros t Ht. unfold lo, hi. clear -Ht. generalize (firstR x) as d. intro d.
+    induction x as [|y r IH]; [destruct Ht|]. simpl. destruct Ht as [<-|Ht].
+    + split; [apply Rmin_l | apply Rmax_l].
+    + destruct (IH Ht) as [L U]. split; [eapply Rle_trans; [apply Rmin_r | exact L] | eapply Rle_trans; [exact U | apply Rmax_r]].
+  - split; [exact N|]. rewrite S0, Hf, Hl, uniform_total_mass by exact HAB. lra.
+Qed.
